@@ -247,6 +247,18 @@ def gen_cases(seed, chunk, n, tier):
             env = {f"T{t}": x for t, x in enumerate(tens)}
             steps = []
             net = {}
+            if rng.random() < 0.5:
+                # call history: the ket network is contracted (fused mode) BEFORE the conjugates are taken, so the
+                # conjugates' index objects derive from ones the fuse machinery has already seen
+                wl, wn = list(legs[0]), "T0"
+                for t in range(1, nt):
+                    common = [nm for nm in wl if nm in legs[t]]
+                    steps.append({"out": [f"W{t}"], "op": "tensordot", "in": [wn, f"T{t}"],
+                                  "params": {"axes": [[wl.index(nm) for nm in common],
+                                                      [legs[t].index(nm) for nm in common]], "mode": "fused"}})
+                    wl = [nm for nm in wl if nm not in common] + [nm for nm in legs[t] if nm not in common]
+                    wn = f"W{t}"
+                meta["ket_first_history"] = True
             for t in range(nt):
                 net[f"T{t}"] = list(legs[t])
                 steps.append({"out": [f"C{t}"], "op": "conj", "in": [f"T{t}"], "params": {}})
